@@ -16,7 +16,7 @@ TRANSLATED
            (`get_pairs`, the max_passes test)                 -> g__diff_iterable_with_deephash_get_pairs,
                                                                  g__diff_iterable_with_deephash_pairs_decision
 
-ENCODING RULES (each is part of the trusted base of this tie; listed in coq/theories/DiffIO/NOTES_srctie.md)
+ENCODING RULES (each is part of the trusted base of this tie; listed in coq/theories/DiffIO/NOTES_srctie_C05.md)
  E1  hashes are an arbitrary type A with a decidable equality aeqb, distances an arbitrary type D with dltb (<) and deqb (== as
      dict key); Python locals are let-bound Coq variables `v_<name>`; a statement that mutates a container rebinds its variable.
      Containers are association lists in insertion order (MemoPairs.v): defaultdict(defaultdict_orderedset) : mic A D,
